@@ -41,7 +41,9 @@ def family(e):
 # ---------------------------------------------------------------------------
 # targets
 # ---------------------------------------------------------------------------
-TARGETS = ['scalar_f', 'scalar_i', 'scalar_u', 'scalar_d', 'scalar0_d', 'vector', 'pair_d', 'matrix', 'bool', 'vector3']
+TARGETS = ['scalar_f', 'scalar_i', 'scalar_u', 'scalar_d', 'scalar0_d', 'vector', 'pair_d', 'matrix', 'bool', 'vector3',
+           # class-specific operator overrides (Matrix3.__mul__/__imul__, Quaternion products, Polynomial ring, shape ())
+           'matrix3', 'quaternion', 'polynomial', 'scalar0', 'vector0_d', 'bool0']
 
 
 def make_target(name, Pm, readonly=False):
@@ -70,6 +72,19 @@ def make_target(name, Pm, readonly=False):
         x = Pm.Matrix(np.arange(8.).reshape(2, 2, 2) + 1., A([False, True]))
     elif name == 'bool':
         x = Pm.Boolean(A([True, False, True]), A([False, False, True]))
+    elif name == 'matrix3':
+        x = Pm.Matrix3(np.stack([np.eye(3), np.eye(3)[::-1]]), A([False, True]))
+    elif name == 'quaternion':
+        x = Pm.Quaternion(np.arange(8.).reshape(2, 4) + 1., A([False, True]))
+    elif name == 'polynomial':
+        x = Pm.Polynomial(np.arange(6.).reshape(2, 3) + 1., A([False, True]))
+    elif name == 'scalar0':
+        x = Pm.Scalar(3)
+    elif name == 'vector0_d':
+        x = Pm.Vector(A([1., 2., 3.]))
+        x.insert_deriv('t', Pm.Vector(A([4., 5., 6.])))
+    elif name == 'bool0':
+        x = Pm.Boolean(True)
     else:
         raise ValueError(name)
     if readonly:
@@ -91,6 +106,7 @@ def snap(x):
 # arguments: a valid base argument for (target, op) with faults layered on top
 # ---------------------------------------------------------------------------
 FAULTS = ['readonly', 'type', 'units', 'numer', 'denom', 'kind', 'shape', 'derivdenom']
+BADTYPES = [{'a': 1}, 'abc', None, object]       # the 'type' fault cycles through these
 INPLACE = ['iadd', 'isub', 'imul', 'itruediv', 'ifloordiv', 'imod', 'iand', 'ior', 'ixor']
 SETITEM = ['set_int', 'set_slice', 'set_mask', 'set_ellipsis', 'set_array']
 MUTATORS = INPLACE + SETITEM
@@ -140,7 +156,8 @@ def apply_fault(arg, fault, target, op, Pm, want_shape):
     """-> (new arg, applicable?)"""
     x = target
     if fault == 'type':
-        return {'a': 1}, True
+        k = (len(op) + len(str(type(arg))) + len(type(x).__name__)) % len(BADTYPES)
+        return BADTYPES[k], True
     if fault == 'units':
         if isinstance(arg, Pm.Qube) and arg.UNITS_OK:
             if x.units is None:
@@ -485,7 +502,9 @@ def run(ctx):
                     if out[0] == 'exc' and out[1] not in ALLOWED:
                         ctx.fail({'what': 'wrong-exception-family', 'nonmut': opn, 'target': t, 'form': form,
                                   'faults': f, 'exc': out[1], 'site': out[2]}, c, {'outcome': out})
-                    if snap(x) != before:
+                    # only a REJECTED operation is C19's business here (what an accepted non-mutating operation may
+                    # do to its operands - e.g. broadcasting marks array-valued objects read-only - is C07's)
+                    if out[0] == 'exc' and snap(x) != before:
                         ctx.fail({'what': 'operand-changed', 'nonmut': opn, 'target': t, 'faults': f}, c, {'outcome': out})
     # ---- documented optional arguments
     for name, fn in option_calls(Pm):
